@@ -970,6 +970,9 @@ func (e *Engine) Summary(fn *ssa.Function, ctx Ctx) *Summary {
 			case "const", "unk", "param":
 				continue
 			}
+			if isErrorType(fn.Signature.Results().At(i).Type()) {
+				continue
+			}
 			f = f.replace(resTerms[i], &Term{Op: "result", Idx: i})
 		}
 		s.Facts.add(f)
@@ -991,6 +994,9 @@ func (e *Engine) Summary(fn *ssa.Function, ctx Ctx) *Summary {
 	e.sums[k] = s
 	return s
 }
+
+// Replace is the exported form of replace.
+func (f Fact) Replace(from, to *Term) Fact { return f.replace(from, to) }
 
 // replace substitutes every sub-term whose string is from by to.
 func (f Fact) replace(fromT *Term, to *Term) Fact {
